@@ -816,6 +816,11 @@ def s_prepare(rr):
     rr["eps"] = rv(eps_of(rr["a"].leaders))
     rr["epsA"] = rv(eps_of(getattr(rr["a"], "archive", None)))
     rr["box"] = box_s(rr["cfg"])
+    # two different evaluated positions closer than the comparison band whose stored costs differ: the model, which computes
+    # positions exactly, cannot tell which of the two a position is (seen in boxes of width 1e-6: neighbours one ulp apart)
+    ok = [(v, [float(t) for t in ind.costs_signed[:-1]]) for ind, v, k, c in p.calls if k == "o"]
+    rr["ambiguous"] = any(v1 != v2 and c1 != c2 and len(v1) == len(v2) and all(close(a, b) for a, b in zip(v1, v2))
+                          for i, (v1, c1) in enumerate(ok) for v2, c2 in ok[i + 1:])
 
 
 def offspring_of(rec):
@@ -1036,6 +1041,8 @@ def check_step(rr, it, ans):
             return ("step-turbulence", head + "particle %d: position %r after update_position, %r handed to the evaluator (box %r); the model's turbulence "
                     "(copied coordinate or clipped value; particle %s mutated) gives %r" % (
                         k, rx, hx, bounds, "is" if (alg == "OMOPSO" or k % 6 == 0) else "is not", [float(t) for t in mt]))
+    if rr["ambiguous"]:
+        return "ambiguous"
     if uncovered:
         return ("step-uncovered", head + "velocities, positions and turbulence agree with the model within the comparison band, but the model then "
                 "evaluates a position that is further than 1e-9 from every position the run evaluated")
@@ -1201,6 +1208,10 @@ def check_swarm_runs(ctx, rrs):
                 ctx.count("swarm_steps_crowding_near_tie_at_the_leader_cut")
                 rr["skip_run"] = True
                 continue
+            if res == "ambiguous":
+                ctx.count("swarm_steps_costs_not_compared_positions_one_ulp_apart")
+                rr["skip_run"] = True
+                continue
             if res is not None:
                 return res + (cfg,)
             rec = rr["recs"][it]
@@ -1291,7 +1302,8 @@ def run(ctx):
                         "step-by-step replay: the model computes positions exactly, the run in doubles; costs of a model position are those the run "
                         "stored for the closest evaluated position within 1e-9 relative; velocity after update_position is not compared on "
                         "coordinates where x+v is within 1e-9 relative of a bound (counted); a leader set that differs only through crowding "
-                        "distances tied within rounding at the truncation cut is counted, not reported"]
+                        "distances tied within rounding at the truncation cut is counted, not reported; in a run that evaluated two different "
+                        "positions closer than 1e-9 relative with different stored costs only velocities, positions and turbulence are compared (counted)"]
     import random as _random
     state = _random.getstate()
     _random.seed(ctx.rng.getrandbits(64))      # the code under test draws from the global generator
